@@ -6,6 +6,7 @@ mod verif_symexpr {
     /// overflowing quotient MIN / -1 and division by zero, which `eval` guards against).
     /// This discharges the contract assumed for `div_ceil` in contracts/verus/symexpr.rs.
     #[kani::proof]
+    #[kani::solver(z3)]
     pub fn div_ceil_exact() {
         let a: i32 = kani::any();
         let b: i32 = kani::any();
@@ -18,58 +19,6 @@ mod verif_symexpr {
         assert!(r == want, "r == ceil(a / b)");
         kani::cover!(a < 0 && b < 0 && a % b != 0);
     }
-
-    /// Counterexample twin of the Verus obligation range.sound on constant trees
-    /// op(Value a, Value b) and Neg(op(..)): whenever the i32 reference semantics does not
-    /// overflow, the value lies in range() and is >= 0 if is_positive(). Gives concrete inputs
-    /// for replay (symbol leaves are left to the Verus proof: String/SmallVec make them too
-    /// expensive for CBMC).
-    fn twin(op: u8) {
-        let (a, b): (i32, i32) = (kani::any(), kani::any());
-        let neg: bool = kani::any();
-        let (l, r) = (Arc::new(SymExpr::Value(a)), Arc::new(SymExpr::Value(b)));
-        let e0 = match op {
-            0 => SymExpr::Add(l, r),
-            1 => SymExpr::Sub(l, r),
-            2 => SymExpr::Mul(l, r),
-            3 => SymExpr::Div(l, r),
-            4 => SymExpr::DivCeil(l, r),
-            5 => SymExpr::Max(l, r),
-            6 => SymExpr::Min(l, r),
-            _ => SymExpr::Broadcast(l, r),
-        };
-        let e = if neg { SymExpr::Neg(Arc::new(e0)) } else { e0 };
-        let (a, b) = (a as i64, b as i64);
-        let v: Option<i64> = match op {
-            0 => Some(a + b),
-            1 => Some(a - b),
-            2 => Some(a * b),
-            3 => if b == 0 { None } else { Some(a / b) },
-            4 => if b == 0 { None } else { Some(if (a % b != 0) && ((a < 0) == (b < 0)) { a / b + 1 } else { a / b }) },
-            5 => Some(a.max(b)),
-            6 => Some(a.min(b)),
-            _ => if a >= 0 && b >= 0 { Some(a.max(b)) } else { None }, // Broadcast operands are >= 0 by definition
-        };
-        let Some(inner) = v else { return; };
-        kani::assume(inner >= i32::MIN as i64 && inner <= i32::MAX as i64);
-        let v = if neg { -inner } else { inner };
-        kani::assume(v >= i32::MIN as i64 && v <= i32::MAX as i64);
-        let (lo, hi) = e.range();
-        assert!(lo as i64 <= v && v <= hi as i64, "range() contains the evaluated value");
-        if e.is_positive() {
-            assert!(v >= 0, "is_positive() expression evaluated negative");
-        }
-        kani::cover!(v != 0);
-    }
-
-    #[kani::proof] pub fn range_twin_add() { twin(0) }
-    #[kani::proof] pub fn range_twin_sub() { twin(1) }
-    #[kani::proof] pub fn range_twin_mul() { twin(2) }
-    #[kani::proof] pub fn range_twin_div() { twin(3) }
-    #[kani::proof] pub fn range_twin_div_ceil() { twin(4) }
-    #[kani::proof] pub fn range_twin_max() { twin(5) }
-    #[kani::proof] pub fn range_twin_min() { twin(6) }
-    #[kani::proof] pub fn range_twin_broadcast() { twin(7) }
 
     #[kani::proof]
     pub fn canary() {
